@@ -116,10 +116,12 @@ let () = iter_lines (fun line ->
     match split_ws line with
     | ["enc"; ms] ->
         let m = parse p_msg ms in
-        let w = wire m in
-        Printf.printf "enc %s %s %s | nbt %s | json %s\n" (hexs w) (hexs (wire_named m)) (show_json (to_json m))
-          (show_read (msg_read w))
-          (match of_json (to_json m) with Some x -> "ok " ^ show_msg x | None -> "err")
+        (match wire_opt m with
+         | None -> print_string "enc err\n"
+         | Some w ->
+           Printf.printf "enc %s %s %s | nbt %s | json %s\n" (hexs w) (hexs (wire_named m)) (show_json (to_json m))
+             (show_read (msg_read w))
+             (match of_json (to_json m) with Some x -> "ok " ^ show_msg x | None -> "err"))
     | ["decn"; h] ->
         let s = bytes_of_hex h in
         Printf.printf "decn %s | tree %s\n" (show_read (msg_read s))
@@ -131,13 +133,15 @@ let () = iter_lines (fun line ->
         let idz = z_of_dec id in
         let sender = parse p_msg sn in
         let target = if tgt = "_" then None else Some (parse p_msg tgt) in
-        let w = type_write idz sender target in
-        Printf.printf "type %s | %s\n" (hexs w)
-          (match type_read w with
-           | Some (((i, s), t), rest) ->
-               Printf.sprintf "ok %s %s %s %d" (dec_of_z i) (show_msg s)
-                 (match t with None -> "_" | Some x -> show_msg x) (List.length rest)
-           | None -> "err")
+        (match type_write_opt idz sender target with
+         | None -> print_string "type err\n"
+         | Some w ->
+           Printf.printf "type %s | %s\n" (hexs w)
+             (match type_read w with
+              | Some (((i, s), t), rest) ->
+                  Printf.sprintf "ok %s %s %s %d" (dec_of_z i) (show_msg s)
+                    (match t with None -> "_" | Some x -> show_msg x) (List.length rest)
+              | None -> "err"))
     | ["typed"; h] ->
         Printf.printf "typed %s\n"
           (match type_read (bytes_of_hex h) with
